@@ -317,4 +317,199 @@ open Model.Preprocess in
 theorem union_no_append (p : List Model.Preprocess.Tr) : ∀ t ∈ union p, isAppend t = false := by
   fun_induction union p <;> simp_all [isAppend]
 
+/-! ### what the stages leave behind: no Append, no partitioned Take (what the splitter and the clause assembly rely on) -/
+
+open Model.Preprocess in
+/-- a transform the later passes can place: not an Append, not a Take with a partition -/
+def Placeable : Model.Preprocess.Tr → Prop
+  | .append _ => False
+  | .take _ _ pa _ => pa = []
+  | _ => True
+
+open Model.Preprocess in
+/-- not a partitioned Take (Appends are still allowed: `union` removes them) -/
+def NoPartTake : Model.Preprocess.Tr → Prop
+  | .take _ _ pa _ => pa = []
+  | _ => True
+
+open Model.Preprocess in
+theorem distinctGo_noPartTake (cfg : Cfg) (frame : List CId) (next : CId) (p : List (Model.Preprocess.Tr × Info))
+    (q : List Model.Preprocess.Tr) (n : CId) (h : distinctGo cfg frame next p = some (q, n)) : ∀ t ∈ q, NoPartTake t := by
+  induction p generalizing next q n with
+  | nil => simp [distinctGo] at h; obtain ⟨rfl, _⟩ := h; intro t ht; simp at ht
+  | cons hd rest ih =>
+    obtain ⟨t0, i0⟩ := hd
+    cases t0 with
+    | take s e pa so =>
+      simp only [distinctGo] at h
+      split at h
+      · rename_i hpa
+        cases hr : distinctGo cfg frame next rest with
+        | none => simp [hr] at h
+        | some r =>
+          obtain ⟨r1, r2⟩ := r
+          simp [hr] at h
+          obtain ⟨rfl, rfl⟩ := h
+          intro t ht
+          rcases List.mem_cons.mp ht with rfl | ht
+          · simpa [NoPartTake] using hpa
+          · exact ih _ _ _ hr t ht
+      · split at h
+        · rename_i s' e' _ _
+          split at h
+          all_goals
+            first
+            | (cases hr : distinctGo cfg frame next rest with
+               | none => simp [hr] at h
+               | some r =>
+                 obtain ⟨r1, r2⟩ := r
+                 simp [hr] at h
+                 obtain ⟨rfl, rfl⟩ := h
+                 intro t ht
+                 simp only [List.mem_cons] at ht
+                 rcases ht with rfl | rfl | ht
+                 all_goals first | trivial | exact ih _ _ _ hr t ht)
+            | (cases hr : distinctGo cfg frame next rest with
+               | none => simp [hr] at h
+               | some r =>
+                 obtain ⟨r1, r2⟩ := r
+                 simp [hr] at h
+                 obtain ⟨rfl, rfl⟩ := h
+                 intro t ht
+                 simp only [List.mem_cons] at ht
+                 rcases ht with rfl | ht
+                 all_goals first | trivial | exact ih _ _ _ hr t ht)
+            | (cases hr : distinctGo cfg frame (next + 1) rest with
+               | none => simp [hr] at h
+               | some r =>
+                 obtain ⟨r1, r2⟩ := r
+                 simp [hr, rowNumberFilter] at h
+                 obtain ⟨rfl, rfl⟩ := h
+                 intro t ht
+                 simp only [List.mem_cons] at ht
+                 rcases ht with rfl | rfl | ht
+                 all_goals first | trivial | exact ih _ _ _ hr t ht)
+        · cases h
+    | _ =>
+      simp only [distinctGo] at h
+      cases hr : distinctGo cfg frame next rest with
+      | none => simp [hr] at h
+      | some r =>
+        obtain ⟨r1, r2⟩ := r
+        simp [hr] at h
+        obtain ⟨rfl, rfl⟩ := h
+        intro t ht
+        rcases List.mem_cons.mp ht with rfl | ht
+        · trivial
+        · exact ih _ _ _ hr t ht
+
+open Model.Preprocess in
+theorem union_placeable (p : List Model.Preprocess.Tr) (h : ∀ t ∈ p, NoPartTake t) : ∀ t ∈ union p, Placeable t := by
+  fun_induction union p with
+  | case1 => intro t ht; simp at ht
+  | case2 cols rest ih =>
+    intro t ht
+    rcases List.mem_cons.mp ht with rfl | ht
+    · trivial
+    · exact ih (fun x hx => h x (by simp [hx])) t ht
+  | case3 cols rest _ ih =>
+    intro t ht
+    rcases List.mem_cons.mp ht with rfl | ht
+    · trivial
+    · exact ih (fun x hx => h x (by simp [hx])) t ht
+  | case4 t' rest hna1 hna2 ih =>
+    intro t ht
+    rcases List.mem_cons.mp ht with rfl | ht
+    · have := h t (by simp)
+      cases t <;> simp_all [Placeable, NoPartTake]
+    · exact ih (fun x hx => h x (by simp [hx])) t ht
+
+open Model.Preprocess in
+theorem dropHeadDistinct_mem {l : List Model.Preprocess.Tr} {t : Model.Preprocess.Tr} (h : t ∈ dropHeadDistinct l) : t ∈ l := by
+  unfold dropHeadDistinct at h
+  split at h
+  · exact List.mem_cons_of_mem _ h
+  · exact h
+
+open Model.Preprocess in
+theorem exceptStep_placeable (cfg : Cfg) (output : List CId) (resRev : List Model.Preprocess.Tr) (t : Model.Preprocess.Tr)
+    (r : List Model.Preprocess.Tr) (h : exceptStep cfg output resRev t = some r)
+    (h1 : ∀ x ∈ resRev, Placeable x) (h2 : Placeable t) : ∀ x ∈ r, Placeable x := by
+  unfold exceptStep at h
+  split at h
+  · rename_i f bottom jc beforeRev
+    split at h
+    · cases h; intro x hx
+      rcases List.mem_cons.mp hx with rfl | hx
+      · exact h2
+      · exact h1 x hx
+    · cases h
+    · rename_i d _
+      cases h
+      intro x hx
+      rcases List.mem_cons.mp hx with rfl | hx
+      · trivial
+      · have : x ∈ beforeRev := by
+          cases d
+          · simpa using hx
+          · simp only [if_true] at hx; exact dropHeadDistinct_mem hx
+        exact h1 x (List.mem_cons_of_mem _ this)
+  · cases h; intro x hx
+    rcases List.mem_cons.mp hx with rfl | hx
+    · exact h2
+    · exact h1 x hx
+
+open Model.Preprocess in
+theorem exceptGo_placeable (cfg : Cfg) (output : List CId) (resRev p q : List Model.Preprocess.Tr)
+    (h : exceptGo cfg output resRev p = some q) (h1 : ∀ x ∈ resRev, Placeable x) (h2 : ∀ x ∈ p, Placeable x) :
+    ∀ x ∈ q, Placeable x := by
+  induction p generalizing resRev with
+  | nil =>
+    simp only [exceptGo, Option.some.injEq] at h
+    subst h
+    intro x hx
+    exact h1 x (List.mem_reverse.mp hx)
+  | cons t rest ih =>
+    simp only [exceptGo] at h
+    cases hs : exceptStep cfg output resRev t with
+    | none => simp [hs] at h
+    | some r =>
+      simp only [hs] at h
+      exact ih r h (exceptStep_placeable cfg output resRev t r hs h1 (h2 t (by simp))) (fun x hx => h2 x (by simp [hx]))
+
+open Model.Preprocess in
+theorem intersectGo_placeable (cfg : Cfg) (output : List CId) (skip : Bool) (resRev p q : List Model.Preprocess.Tr)
+    (h : intersectGo cfg output skip resRev p = some q) (h1 : ∀ x ∈ resRev, Placeable x) (h2 : ∀ x ∈ p, Placeable x) :
+    ∀ x ∈ q, Placeable x := by
+  fun_induction intersectGo cfg output skip resRev p with
+  | case1 skip resRev =>
+    simp only [Option.some.injEq] at h
+    subst h
+    intro x hx
+    exact h1 x (List.mem_reverse.mp hx)
+  | case2 resRev rest ih =>
+    exact ih h h1 (fun x hx => h2 x (by simp [hx]))
+  | case3 skip resRev bottom jc rest _ nextIsDistinct ih =>
+    refine ih h ?_ (fun x hx => h2 x (by simp [hx]))
+    intro x hx
+    rcases List.mem_cons.mp hx with rfl | hx
+    · trivial
+    · exact h1 x hx
+  | case4 skip resRev bottom jc rest _ nextIsDistinct =>
+    cases h
+  | case5 skip resRev bottom jc rest _ nextIsDistinct d ih =>
+    refine ih h ?_ (fun x hx => h2 x (by simp [hx]))
+    intro x hx
+    rcases List.mem_cons.mp hx with rfl | hx
+    · trivial
+    · split at hx
+      · exact h1 x (dropHeadDistinct_mem hx)
+      · exact h1 x hx
+  | case6 skip resRev t rest _ _ ih =>
+    refine ih h ?_ (fun x hx => h2 x (by simp [hx]))
+    intro x hx
+    rcases List.mem_cons.mp hx with rfl | hx
+    · exact h2 x (by simp)
+    · exact h1 x hx
+
 end Lemmas.Preprocess
